@@ -71,6 +71,7 @@ def run_property(prop, tier, seed, nproc=None):
     _setup_path()
     t0 = time.time()
     mod = importlib.import_module(f"props.{prop}")
+    os.environ["VERIF_TIER_ACTIVE"] = tier
     jobs = mod.jobs(tier, seed)
     known_path = os.path.join(ROOT, "known_findings.json")
     hard = getattr(mod, "JOB_TIMEOUT", {"quick": 300, "thorough": 1800})[tier]
